@@ -177,3 +177,66 @@ func safeIdx(a [][]byte, i int) []byte {
 	}
 	return nil
 }
+
+// caseEager: a peer that does not wait for the library's header before it talks: its own header and
+// its first frames go out in one write as soon as the connection is up (each side sends its header
+// first and may follow it with messages at once).  Nothing that was queued behind the header may be
+// lost or shifted: the library must deliver exactly these frames.
+func caseEager(c *mon.Case, sp spec) {
+	g := newRig(c, sp)
+	base := g.pw.Attached()
+	cn, dial, _, ok := g.rawConn()
+	if !ok {
+		return
+	}
+	var bodies [][]byte
+	all := append([]byte{}, spcodec.Header(g.proto.PeerNum)...)
+	for _, sz := range sp.Sizes {
+		b := rndBytes(c.Rand, sz)
+		bodies = append(bodies, b)
+		all = spcodec.AppendFrame(all, g.ipc, b)
+	}
+	wr := mon.Go("peer-write", func() (interface{}, error) { _, err := cn.Write(all); return nil, err })
+	if sp.Seg == "late-read" {
+		mon.Sleep(3 * time.Millisecond) // the library's handshake read finds header and frames together
+	}
+	if !g.readOwnHeader(cn) {
+		return
+	}
+	if dial != nil {
+		if !g.wait("stream/dial-stuck-after-good-header", "library Dial returning after a correct peer header", dial) {
+			return
+		}
+		if _, err, _ := dial.Result(); err != nil {
+			c.Violate("stream/good-header-rejected:"+g.tag, "Dial returned %v after a correct peer header followed at once by frames", err)
+			return
+		}
+	}
+	if !c.AwaitOrViolate("stream/good-header-not-attached:"+g.tag, "pipe attaching after a correct peer header followed at once by frames ["+g.tag+"]",
+		func() bool { return g.pw.Attached() > base }, mon.AwaitOpts{}) {
+		return
+	}
+	for k, want := range bodies {
+		rc := mon.Go("RecvMsg", func() (interface{}, error) { return g.sock.RecvMsg() })
+		if !g.wait("stream/frame-not-delivered", fmt.Sprintf("RecvMsg of frame %d of %d that the peer sent right behind its header", k, len(bodies)), rc) {
+			return
+		}
+		v, err, _ := rc.Result()
+		if err != nil {
+			c.Violate("stream/recv-error:"+g.tag, "RecvMsg returned %v for a frame sent right behind the peer's header", err)
+			return
+		}
+		got := v.(*mangos.Message)
+		if !bytes.Equal(got.Body, want) {
+			c.Violate("stream/delivered-differs:"+g.tag, "frame %d sent right behind the peer's header: delivered %d bytes, want %d (first difference at %d)", k, len(got.Body), len(want), firstDiff(got.Body, want))
+			return
+		}
+		got.Free()
+	}
+	if !g.wait("harness:peer-write-stuck", "raw peer finishing its write", wr) {
+		return
+	}
+	c.Count("frames_behind_header_compared", len(bodies))
+	c.Nontrivial()
+	c.Sig("eager|%s|%s|%d", g.tag, sp.Seg, len(bodies))
+}
